@@ -69,7 +69,7 @@ func e2eObserve(w *e2eWorld, rec *httptest.ResponseRecorder, hits []harness.Back
 	}
 	for _, h := range hits {
 		o.Served = true
-		o.Identity = fmt.Sprintf("user=%s email=%s groups=%s host=%s", h.Header.Get("X-Forwarded-User"), h.Header.Get("X-Forwarded-Email"), h.Header.Get("X-Forwarded-Groups"), h.Host)
+		o.Identity = fmt.Sprintf("user=%s email=%s groups=%s backend=%s", h.Header.Get("X-Forwarded-User"), h.Header.Get("X-Forwarded-Email"), h.Header.Get("X-Forwarded-Groups"), h.Backend)
 	}
 	for _, ck := range res.Cookies() {
 		if ck.Name != harness.CookieName {
